@@ -406,7 +406,9 @@ func convTypeToTarget(source interface{}, target reflect.Type) (interface{}, err
 	default:
 		if source != nil {
 			rv := reflect.ValueOf(source)
-			if rv.IsValid() && rv.CanConvert(target) {
+			// Go converts an integer to a string as a code point (65 -> "A"); an integer
+			// element of a caller's []int or map[string]int must be formatted instead
+			if rv.IsValid() && rv.CanConvert(target) && !(target.Kind() == reflect.String && rv.Kind() != reflect.String && rv.Kind() != reflect.Slice) {
 				return rv.Convert(target).Interface(), nil
 			}
 		}
